@@ -94,8 +94,15 @@ def run_case(case, step_hook=None):
         if o == "update":
             dicts = [_dup_free(a["d"]) for a in op.get("args", [])]
             kw = _dup_free(op.get("kw", []))
-            tag.attrs.update(*[_d(d) for d in dicts], **_d(kw))
-            model.update(dicts, kw)
+            live_args = [_d(d) for d in dicts]
+            model_args = list(dicts)
+            if op.get("self_at") is not None:
+                # the element's own attribute map among the arguments (what it holds when the call is made)
+                k_ = min(op["self_at"], len(live_args))
+                live_args.insert(k_, tag.attrs)
+                model_args.insert(k_, [(n_, list(parts_)) for n_, parts_ in model.items.items()])
+            tag.attrs.update(*live_args, **_d(kw))
+            model.update(model_args, kw)
         elif o == "setitem":
             tag.attrs[op["name"]] = _bv(op["v"])
             model.setitem(op["name"], op["v"])
